@@ -178,6 +178,11 @@ def aes_validate (ext : ReadExt V Mo) (r : Take) (mode : Mo) (size : UInt64) (pw
   let ok ← ext.aesValidate r mode size pw
   pure (if ok then some ⟨r, mode, size, pw⟩ else none)
 
+/-- a `ZipResult` VALUE as the outcome of the function (`res.map_err(|_| e)` in result position) -/
+def of_result {α : Type} : Except ZipErr α → M α
+  | .ok a => pure a
+  | .error e => M.throw (zerr e)
+
 /-- `(reader as &mut dyn Read).take(n)` -/
 def take (n : UInt64) : Take := ⟨n⟩
 
